@@ -1941,7 +1941,13 @@ class TestGraph(object):
         )
         pre_node.results = list(test_node.results)
         pre_node.started_worker = worker
-        status = await self.runner.run_test_node(pre_node)
+        # the object creation is already in progress so account for it as a running try
+        pending_result = {"name": test_node.params["name"], "status": "UNKNOWN"}
+        test_node.results += [pending_result]
+        try:
+            status = await self.runner.run_test_node(pre_node)
+        finally:
+            test_node.results.remove(pending_result)
         if not status:
             logging.error(
                 "Could not configure the installation for %s on %s",
